@@ -145,6 +145,8 @@ type Unit struct {
 	frameSites map[string]int
 	atAsserts map[*ast.CallExpr][]*Clause
 	refMapValue map[string]bool
+	globalMode bool
+	globalRefs []string
 	inCommute bool
 	commuteAlloc string
 	noCommute bool
@@ -390,6 +392,17 @@ func fieldHeapKey(owner types.Type, field string) string {
 
 // newRef allocates a fresh, non-nil reference distinct from every reference that exists so far.
 func (u *Unit) newRef(st *State, hint string) string {
+	if u.globalMode {
+		// an object created by a package-level initialiser: it exists before the function is entered
+		r := u.reg.fresh("gref_"+hint, "Int")
+		u.reg.axiom("(> " + r + " 0)")
+		u.reg.axiom("(<= " + r + " alloc_0)")
+		for _, o := range u.globalRefs {
+			u.reg.axiom(not(eq(r, o)))
+		}
+		u.globalRefs = append(u.globalRefs, r)
+		return r
+	}
 	r := u.reg.fresh("ref_"+hint, "Int")
 	st.assume("(> " + r + " " + st.alloc + ")")
 	st.assume("(> " + r + " 0)")
